@@ -47,6 +47,7 @@ M = [
  ("m20", "C05", "nitro.go", "\t\t\tif err := w.WriteItem(itm); err != nil {\n\t\t\t\treturn err\n\t\t\t}\n", "\t\t\tw.WriteItem(itm)\n", "backup ignores item write errors"),
  ("m21", "C09", "iterator.go", "\t\tit.iter.Seek(unsafe.Pointer(itm))\n\t\tit.skipUnwanted()", "\t\tit.iter.Seek(unsafe.Pointer(itm))", "Refresh no longer skips invisible versions (with the exact comparator it lands exactly anyway?)"),
  ("m22", "C09", "nitro.go", "\t\tv = int(thisItem.bornSn) - int(thatItem.bornSn)", "\t\tv = int(thatItem.bornSn) - int(thisItem.bornSn)", "versions of a key ordered newest first"),
+ ("m24", "C05", "nitro.go", "\t\tif itm.bornSn <= ctx.sn && itm.deadSn > ctx.sn {", "\t\tif itm.bornSn < ctx.sn && itm.deadSn > ctx.sn {", "delta writer skips items born in the stored snapshot's own epoch (needs GC of such an item during a delta backup, before the scan reaches it)"),
  ("m23", "C01", "nitro.go", "\tsnap := &Snapshot{db: m, sn: m.GetCurrSn(), refCount: 1, count: m.ItemsCount()}", "\tsnap := &Snapshot{db: m, sn: m.GetCurrSn(), refCount: 1, count: m.ItemsCount() + 0}", "no-op control mutant (must NOT be flagged)"),
 ]
 
